@@ -61,7 +61,7 @@ Section Snap.
   Definition visible (s : net2) (l : label) : Prop :=
     match l with
     | LSendAE i prev _ _ => first s i <= prev
-    | LRestart i c => first s i <= c
+    | LRestart i c _ => first s i <= c
     | _ => True
     end.
 
@@ -114,7 +114,7 @@ Section Snap.
   Definition visible_b (s : net2) (l : label) : bool :=
     match l with
     | LSendAE i prev _ _ => first s i <=? prev
-    | LRestart i c => first s i <=? c
+    | LRestart i c _ => first s i <=? c
     | _ => true
     end.
 
